@@ -101,10 +101,15 @@ func (g *Gen) repeatDrawProgram() *GProgram {
 	sum := g.smallBalances(names, asset, 15)
 	src := &GSource{Kind: SrcInorder}
 	k := 3 + g.r.Intn(3)
+	same := g.r.Chance(1, 4) // one account, three to five times, each time with a grant: the grant is given once
 	for i := 0; i < k; i++ {
 		a := names[g.r.Intn(2)]
 		var s *GSource
-		switch g.r.Weighted(40, 35, 15, 10) {
+		w := []int{40, 35, 15, 10}
+		if same {
+			a, w = "a", []int{15, 10, 75, 0}
+		}
+		switch g.r.Weighted(w...) {
 		case 0:
 			s = srcAcct(a)
 		case 1:
@@ -124,6 +129,10 @@ func (g *Gen) repeatDrawProgram() *GProgram {
 		src.Subs = append(src.Subs, srcAcct("world"))
 	}
 	n := g.r.BigBelow(new(big.Int).Add(sum, bi(8)))
+	if same {
+		src.Subs = append(src.Subs, srcAcct("world"))
+		n = new(big.Int).Add(sum, bi(int64(20+g.r.Intn(30))))
+	}
 	var dst *GDest
 	if g.r.Chance(1, 2) {
 		dst = &GDest{Kind: DstInorder}
